@@ -12,6 +12,7 @@ CONSTANTS Comp = "multi"
   NBuf = 0
   Gaps <- G_3_6_31
   Strict = FALSE
+  Busy = FALSE
   D = 2
 INIT Init
 NEXT Next
